@@ -2,12 +2,14 @@
 """Two more behaviour-preserving edit fuzzers (companions of rename_fuzz.py):
 
   pass   insert a `pass` statement at the head of every unpinned function body
+  kwarg  positional arguments bound to defaulted parameters of a resolved
+         repository function are passed by keyword instead
   swap   swap adjacent independent plain assignments (no calls, subscripts or
          attributes on either side, neither reads the other's target)
 
 Each makes a copy of the package under a temporary directory outside /repo and
 /verif, runs every claimed check on it and reports the checks that fire.  Not
-part of any registered check.   usage: benign_fuzz.py pass|swap [--only C01 ...]
+part of any registered check.   usage: benign_fuzz.py pass|swap|kwarg|kwargall [--only C01 ...]
 """
 import ast
 import json
@@ -74,10 +76,49 @@ def edit_swap(src):
     return "".join(lines), len(set(swaps))
 
 
+def make_edit_kwarg(all_args=False):
+    """positional arguments bound to *defaulted* parameters of a resolved repository function become keyword arguments"""
+    sys.path.insert(0, VERIF)
+    from vcheck.core import Repo
+
+    repo = Repo(REPO)
+    by_rel = dict((m.rel, m) for m in repo.modules.values())
+
+    def edit(src, rel):
+        m = by_rel.get(rel)
+        if m is None:
+            return src, 0
+        tree = ast.parse(src)
+        lines = src.splitlines(True)
+        ins = []
+        for fn in ast.walk(tree):
+            if not isinstance(fn, ast.FunctionDef) or pinned(fn):
+                continue
+            for c in ast.walk(fn):
+                if not (isinstance(c, ast.Call) and isinstance(c.func, ast.Name)) or any(isinstance(a, ast.Starred) for a in c.args):
+                    continue
+                tgt = repo.resolve(m.name, c.func.id)
+                if tgt is None or getattr(tgt, "kind", None) != "func" or tgt.node is None or tgt.node.args.vararg or tgt.node.args.posonlyargs:
+                    continue
+                pos = [a.arg for a in tgt.node.args.args]
+                first_default = 1 if all_args else len(pos) - len(tgt.node.args.defaults)
+                for i, a in enumerate(c.args):
+                    if i >= first_default and i < len(pos):
+                        ins.append((a.lineno, a.col_offset, pos[i] + "="))
+        for ln, col, text in sorted(set(ins), reverse=True):
+            l = lines[ln - 1]
+            # col_offset is in utf-8 bytes
+            b = l.encode("utf-8")
+            lines[ln - 1] = (b[:col] + text.encode() + b[col:]).decode("utf-8")
+        return "".join(lines), len(set(ins))
+
+    return edit
+
+
 def main():
     mode = sys.argv[1]
     only = sys.argv[sys.argv.index("--only") + 1:] if "--only" in sys.argv else None
-    edit = dict(**{"pass": edit_pass, "swap": edit_swap})[mode]
+    edit = make_edit_kwarg(mode == "kwargall") if mode.startswith("kwarg") else dict(**{"pass": edit_pass, "swap": edit_swap})[mode]
     tmp = tempfile.mkdtemp(prefix="vcheck-%s-" % mode)
     try:
         shutil.copytree(os.path.join(REPO, "vc2_conformance"), os.path.join(tmp, "vc2_conformance"), ignore=shutil.ignore_patterns("__pycache__"))
@@ -87,7 +128,7 @@ def main():
                 if f.endswith(".py"):
                     p = os.path.join(root, f)
                     src = open(p, encoding="utf-8").read()
-                    new, c = edit(src)
+                    new, c = edit(src, os.path.relpath(p, tmp)) if mode.startswith("kwarg") else edit(src)
                     try:
                         ast.parse(new)
                     except SyntaxError as e:
